@@ -279,6 +279,32 @@ def m_bits(ex, st, callee, args):
     raise Inconclusive(callee)
 
 
+_range_new_re = re.compile(r"^(?:std|core)::ops::(?:range::)?RangeInclusive::<(\w+)>::new$")
+_range_contains_re = re.compile(r"^(?:std|core)::ops::(?:range::)?RangeInclusive::<(\w+)>::contains::<(\w+)>$")
+
+
+def m_range_new(ex, st, callee, args):
+    """RangeInclusive::new(a, b): the pair of its bounds"""
+    return [(None, Adt("RangeInclusive", None, [scalar(ex, st, args[0]), scalar(ex, st, args[1])]))]
+
+
+def m_range_contains(ex, st, callee, args):
+    """(a..=b).contains(&x)  ==  a <= x && x <= b   (PartialOrd of the element type: IEEE comparison for floats)"""
+    r = ex.deref(st, args[0]) if isinstance(args[0], Ref) else args[0]
+    if not (isinstance(r, Adt) and r.ty == "RangeInclusive"):
+        raise Inconclusive("contains on %r" % (r,))
+    a, b = r.fields
+    x = scalar(ex, st, args[1])
+    if a.ty == "f64":
+        c = z3.And(z3.fpLEQ(a.e, x.e), z3.fpLEQ(x.e, b.e))
+    elif a.ty in INT_TYPES:
+        signed = INT_TYPES[a.ty][1]
+        c = z3.And(a.e <= x.e, x.e <= b.e) if signed else z3.And(z3.ULE(a.e, x.e), z3.ULE(x.e, b.e))
+    else:
+        raise Inconclusive("RangeInclusive<%s>::contains" % a.ty)
+    return [(None, Sc("bool", c))]
+
+
 # ------------------------------------------------------------------ conversions
 _tryinto_re = re.compile(r"^<(%s) as (TryInto|TryFrom)<(%s)>>::(try_into|try_from)$" % (INT, INT))
 
@@ -1011,6 +1037,8 @@ def base_models():
     m.add(_checked_re.pattern, m_checked)
     m.add(_abs_re.pattern, m_abs)
     m.add(_bits_re.pattern, m_bits)
+    m.add(_range_new_re.pattern, m_range_new)
+    m.add(_range_contains_re.pattern, m_range_contains)
     m.add(_euclid_re.pattern, m_euclid)
     m.add(_minmax_re.pattern, m_minmax)
     m.add(_tryinto_re.pattern, m_tryinto)
